@@ -340,9 +340,19 @@ def _assigned_in(loop, name):
     return False
 
 
+_CACHE = {}
+
+
 def func_sym_paths(fi, limit=4000) -> List[SymPath]:
+    """Feasible paths of a whole function (memoised per analysis run: callers must not modify the SymPath objects)."""
     from .model import docstring_free
-    return sym_paths(docstring_free(fi.body), limit, fi=fi)
+    key = (id(fi.node), limit, id(INLINER))
+    hit = _CACHE.get(key)
+    if hit is not None and hit[0] is fi.node:
+        return list(hit[1])
+    res = sym_paths(docstring_free(fi.body), limit, fi=fi)
+    _CACHE[key] = (fi.node, res)
+    return list(res)
 
 
 def returns(fi, limit=4000):
